@@ -314,8 +314,10 @@ def run_meshes(mutate=None):
             got = {}
             real_dd = mods["tdgl.solution.data"].ns["DynamicsData"]
 
-            def ddstub(dt, mu=None, theta=None, screening_iterations=None):
-                got.update(dt=dt, mu=mu, theta=theta, screening_iterations=screening_iterations)
+            class ddstub(real_dd):
+                """the real class (its helpers stay reachable) with a constructor that records what it is handed"""
+                def __init__(self_, dt, mu=None, theta=None, screening_iterations=None):
+                    got.update(dt=dt, mu=mu, theta=theta, screening_iterations=screening_iterations)
             mods["tdgl.solution.data"].ns["DynamicsData"] = ddstub
             try:
                 real_dd.from_hdf5(gd)
